@@ -2,7 +2,7 @@ SPEC = dict(
     id="C18",
     bin="c18",
     coq_dir="C18",
-    coq_targets=["C18/Proofs.vo", "C18/Examples.vo"],
+    coq_targets=["C18/Proofs.vo", "C18/Examples.vo", "C18/Runs2.vo", "C18/Grouping2.vo", "C18/Examples2.vo"],
     allowed_axioms=[],
     level_text=("Unbounded Coq theorems about an executable model of IFT patch application with the brotli decoder as an "
                 "arbitrary argument function (call index, input, optional dictionary, max size -> error kind or bytes): "
@@ -17,6 +17,7 @@ SPEC = dict(
                 "identical font in any permutation. The model is tied to the code on every run by evaluating it (vm_compute) on ~4800 calls of the "
                 "real PatchGroup::apply_next_patches_with_decoder (all permutations of <=4 patches, all two-call groupings, decoder failing at every "
                 "call index with every DecodeError kind, 26 kinds of malformed patch/font/status map, table-keyed drop/replace/diff/duplicates/damaged offsets). "
+                "Round 7: literal run loop and glyph-by-glyph specification proved to succeed on exactly the same inputs with the same offsets/data (c18_run_loop_complete, c18_build_runs_eq_build_loop, c18_patch_offset_array_is_spec; error VALUES can differ, witness in Examples2.v); grouping independence of the generic offset array incl. gvar/CFF under equal offset type (c18_offset_array_grouping, c18_gvar_data_placement_slices); c18_loca_roundtrip. " 
                 "Round 3: CFF/CFF2 charstrings INDEX modelled and covered by correspondence (offSize widening 1->2 inside the shards); any-partition/any-order independence, short-loca overflow = error, loca width = head format proved. Round 2: the model IS the run-by-run builder loop as coded (c18_run_loop_is_glyph_loop: whenever it succeeds it returns the glyph-by-glyph specification's result); gvar (short/long offsets, widening, flag byte, shared tuples, serializer capacity) is modelled and covered by correspondence; grouping independence (one call with ps1++ps2 = two calls) is proved for glyf/loca incl. the loca encode/decode round trip; c18_replace_ignores_base / c18_diff_uses_base pin the decoder's dictionary argument. The 131070-byte short-offset thresholds (glyf: rejection; gvar: widening) are checked on the implementation only."),
     level_note=("Trusted: Coq kernel; the hand-written model coq/C18/Model.v (agreement with incremental-font-transfer is checked per run, not proved); the harness "
                 "generator and its fault-injecting identity-framing decoder (modelled as test_dec). Cff::read/Cff2::read validation of the table prefix is assumed. Partition independence is proved for glyf-only patch sets (false as byte equality for gvar/CFF/CFF2: F-C18-4)."),
@@ -30,7 +31,8 @@ SPEC = dict(
               "write-fonts FontBuilder as a sorted finite map (add_raw = BTreeMap::insert); head.checkSumAdjustment (bytes 8..12) compared modulo"],
     not_covered=["Cff::read / Cff2::read validation of the parts of the CFF/CFF2 table before the charstrings INDEX (assumed; the harness authors valid tables)",
                  "partition/grouping independence as identical TABLES is proved for glyf-only patch sets; for gvar/CFF/CFF2 it is false (finding F-C18-4: widths never shrink) and only equality of glyph contents is tested",
-                 "error agreement of the literal loop with the glyph-by-glyph specification (only success is related; the model itself is the literal loop, so correspondence covers errors)",
+                 "error VALUES of the literal loop vs the glyph-by-glyph specification: success/failure and the successful result are proved equal (c18_build_runs_eq_build_loop), the error kind can differ (Examples2.v c18_run_loop_error_differs); the model itself is the literal loop, so correspondence covers its errors",
+                 "grouping independence with gvar listed as equality of whole FONTS: proved only at the offset-array level under equal offset type (c18_offset_array_grouping) plus the data placement lemma; the byte-level re-read read_gvar(gvar_assemble ..) is not proved (tested by the two-call groupings of the harness)",
                  "widening thresholds (131070 bytes) for glyf/gvar: implementation-only oracle (inputs too large for vm_compute shards)",
                  "patch selection (which URIs form the group): C19; the harness reads the group back through PatchGroup::uris()",
                  "real brotli decoders: outside the model (decoder is a parameter)"],
